@@ -321,10 +321,24 @@ fn real_path(
         let nn = nanos[k % nanos.len()];
         clock.set(Instant::new(*t as u64, nn));
         // what a call observed: (file content served, clock value served)
-        let observe = |rb: usize, fb: usize| -> (Option<Vec<u8>>, Instant) {
-            let served_file = if fs.served_len() > fb { fs.served_at(fs.served_len() - 1).ok() } else { fs.content() };
+        // A call that read the file is judged against exactly the content it was served. A call
+        // that did not read it (an implementation may keep the parsed zone) is judged against
+        // every file installed so far: old or new, never anything else.
+        let upgraded_installed = knobs.upgrade.as_ref().map(|(at, _)| n_local > *at).unwrap_or(false);
+        let observe = |rb: usize, fb: usize| -> (Option<Vec<&RefZone>>, Instant) {
             let served_clock = if clock.reads_len() > rb { clock.read_at(clock.reads_len() - 1) } else { clock.now() };
-            (served_file, served_clock)
+            let zones = if fs.served_len() > fb {
+                fs.served_at(fs.served_len() - 1).ok().and_then(|b| oracles.for_bytes(&b)).map(|z| vec![z])
+            } else {
+                let mut v = vec![oracles.primary.1];
+                if upgraded_installed {
+                    if let Some((_, uz)) = &oracles.upgraded {
+                        v.push(uz);
+                    }
+                }
+                Some(v)
+            };
+            (zones, served_clock)
         };
         let mk_fail = |inv: &'static str, what: &str, obs: String, exp: String, p: Option<PanicInfo>, zz: &RefZone, at: i64| Fail {
             invariant: inv,
@@ -338,13 +352,14 @@ fn real_path(
         };
         let (rb, fb) = (clock.reads_len(), fs.served_len());
         let out = guarded(|| Offset::Local.resolve());
-        let (sf, sc) = observe(rb, fb);
-        let zz = match sf.as_deref().and_then(|b| oracles.for_bytes(b)) {
-            Some(zz) => zz,
+        let (zones, sc) = observe(rb, fb);
+        let zones = match zones {
+            Some(z) => z,
             None => {
                 return Err(mk_fail("HARNESS-served", "resolve()", "file content served matches no installed file".into(), "old or new file".into(), None, oracles.primary.1, *t))
             }
         };
+        let zz = zones[zones.len() - 1];
         if let Some(s) = stats.as_deref_mut() {
             if oracles.upgraded.is_some() && !std::ptr::eq(zz, oracles.primary.1) {
                 s.inc("c18.fault.atomic_upgrade.effective(lookups_on_new_file)");
@@ -358,11 +373,14 @@ fn real_path(
         };
         *log = fnv_mix(*log, got as u64);
         *log = fnv_mix(*log, sc.secs);
-        if let Answer::Offset(w) = want(zz, sc.secs as i64) {
+        let wants: Vec<Answer> = zones.iter().map(|z| want(z, sc.secs as i64)).collect();
+        let all_judged = wants.iter().all(|a| matches!(a, Answer::Offset(_)));
+        let any_match = wants.iter().any(|a| *a == Answer::Offset(got));
+        if let (true, Answer::Offset(w)) = (all_judged, wants[wants.len() - 1]) {
             if let Some(s) = stats.as_deref_mut() {
                 s.inc("c18.lookups.local_path_judged");
             }
-            if got != w {
+            if !any_match {
                 return Err(mk_fail(
                     "Z2-local-offset",
                     "Offset::Local.resolve()",
@@ -374,7 +392,7 @@ fn real_path(
                 ));
             }
             // both entries must agree when they saw the same file and instant
-            if std::ptr::eq(zz, oracles.primary.1) && sc.secs as i64 == *t && got != direct[k] {
+            if zones.len() == 1 && std::ptr::eq(zz, oracles.primary.1) && sc.secs as i64 == *t && got != direct[k] {
                 return Err(mk_fail("Z3-paths-disagree", "resolve() vs direct entry", format!("{} vs {}", got, direct[k]), "equal".into(), None, zz, *t));
             }
         }
@@ -393,19 +411,26 @@ fn real_path(
             ($r1:expr, $name:expr, $call:expr, $expect:expr) => {{
                 let (rb, fb) = (clock.reads_len(), fs.served_len());
                 let out = guarded(|| $call);
-                let (sf, sc) = observe(rb, fb);
-                let zz = match sf.as_deref().and_then(|b| oracles.for_bytes(b)) {
-                    Some(zz) => zz,
+                let (zones, sc) = observe(rb, fb);
+                let zones = match zones {
+                    Some(z) => z,
                     None => return Err(mk_fail("HARNESS-served", $name, "file content served matches no installed file".into(), "".into(), None, oracles.primary.1, *t)),
                 };
+                let zz = zones[zones.len() - 1];
                 let got = match out.result {
                     Ok(v) => v,
                     Err(p) => return Err(mk_fail("Z0-panic", $name, format!("panicked: {}", p.msg), "a value".into(), Some(p), zz, *t)),
                 };
-                if let Answer::Offset(off) = want(zz, sc.secs as i64) {
+                let wants: Vec<Answer> = zones.iter().map(|z| want(z, sc.secs as i64)).collect();
+                let all_judged = wants.iter().all(|a| matches!(a, Answer::Offset(_)));
+                if let (true, Answer::Offset(off)) = (all_judged, wants[wants.len() - 1]) {
                     let local = $r1.secs as i64 + off as i64;
                     let exp = $expect(local, off);
-                    if got != exp {
+                    let any_match = wants.iter().any(|a| match a {
+                        Answer::Offset(o) => got == $expect($r1.secs as i64 + *o as i64, *o),
+                        _ => false,
+                    });
+                    if !any_match {
                         return Err(mk_fail("Z4-local-fields", $name, format!("{:?}", got), format!("{:?} (instant {} shifted by {})", exp, cal::fmt_unix($r1.secs as i64), off), None, zz, sc.secs as i64));
                     }
                     if let Some(s) = stats.as_deref_mut() {
